@@ -68,7 +68,9 @@ Text(s, m) == [s |-> s, mode |-> m, raw |-> FALSE]      \* s: indices into Chars
 RawText(cps, m) == [s |-> cps, mode |-> m, raw |-> TRUE]  \* s: code points
 \* variant: 0 FontNormal, 1 FontSubscript, 2 FontSuperscript (family.Face(size, colour, style, variant))
 \* style: 0 regular, 1 italic requested from the family that has only the regular font (=> faux italic: sheared glyphs)
-DocS(f, sub, z, reuse, v, st, ts) == [font |-> f, subset |-> sub, compress |-> z, reuse |-> reuse, variant |-> v, style |-> st, texts |-> ts]
+\* feat: OpenType features set on the font with SetFeatures: 0 none, 1 "-kern", 2 "-liga"
+DocF(f, sub, z, reuse, v, st, ft, ts) == [font |-> f, subset |-> sub, compress |-> z, reuse |-> reuse, variant |-> v, style |-> st, feat |-> ft, texts |-> ts]
+DocS(f, sub, z, reuse, v, st, ts) == DocF(f, sub, z, reuse, v, st, 0, ts)
 DocV(f, sub, z, reuse, v, ts) == DocS(f, sub, z, reuse, v, 0, ts)
 Doc(f, sub, z, reuse, ts) == DocV(f, sub, z, reuse, 0, ts)
 NoDoc == Doc(0, FALSE, FALSE, 0, <<>>)
@@ -95,6 +97,11 @@ WRunStrings(f) ==
 VariantStrings == {Tail6, Digits, <<7, 8, 3, 8, 6, 5>>}
 \* combining marks the shaper attaches by GPOS (non-zero glyph offsets) in the middle of a word: a q U+0303 b, g U+0308 x x,
 \* q U+0303 U+0308 A V, n U+0308 a.  (The driver skips a document whose font lacks one of the characters.)
+\* more than 150 distinct glyphs of one font in one document (U+0021..U+007E, U+00C0..U+00FF): the two-byte codes pass
+\* 0x0A, 0x0D, 0x28, 0x29 and 0x5C, the bytes that need an escape inside a literal string
+LongString == [i \in 1..158 |-> IF i <= 94 THEN 32 + i ELSE 97 + i]
+\* kerning pairs and ligatures: "AVTo ffl fi"
+FeatString == <<65, 86, 84, 111, 32, 102, 102, 108, 32, 102, 105>>
 MarkStrings == {<<97, 113, 771, 98>>, <<103, 776, 120, 120>>, <<113, 771, 776, 65, 86>>, <<110, 776, 97>>}
 
 Init ==
@@ -107,6 +114,9 @@ Init ==
                                   \* placement of spans: two-line texts (second line at y # 0), regular and faux italic
                                   \cup {DocS(f, sub, TRUE, 0, 0, st, <<Text(s, "H2"), Text(Tail6, "H")>>) : f \in 1..3, sub \in BOOLEAN, st \in 0..1, s \in VariantStrings}
                                   \cup {DocS(f, TRUE, TRUE, 0, v, 0, <<Text(s, "H2")>>) : f \in 1..3, v \in 1..2, s \in VariantStrings}
+                                  \* many distinct glyphs; OpenType features switched off on the font
+                                  \cup {DocS(f, sub, z, 0, 0, 0, <<RawText(LongString, "H")>>) : f \in 1..3, sub \in BOOLEAN, z \in BOOLEAN}
+                                  \cup {DocF(f, sub, TRUE, 0, 0, 0, ft, <<RawText(FeatString, "H"), Text(Tail6, "H")>>) : f \in 1..3, sub \in BOOLEAN, ft \in 0..2}
                                   \* glyph offsets (mark attachment) followed by further glyphs
                                   \cup {DocS(f, sub, TRUE, 0, 0, 0, <<RawText(s, "H")>>) : f \in 1..3, sub \in BOOLEAN, s \in MarkStrings}
        [] Gen = "wruns" ->  doc \in UNION {{Doc(f, sub, TRUE, 0, <<RawText(s, "H")>>) : sub \in BOOLEAN, s \in WRunStrings(f)} : f \in 1..3}
@@ -271,5 +281,8 @@ PathDiag(P) ==
               /\ Abs((P.gl[i].oy0 - P.gl[i].y0) - (P.yoff0 + Pre(ya, i - 1) + P.gl[i].yoff)) <= 1
         THEN {} ELSE {"topath-glyph-misplaced"})
   \cup (IF P.tw = Pre(hor, n) THEN {} ELSE {"textwidth-differs"})
+  \* TextWidth against the width of the span a text line of the same string gets (sw; -1: the line has several spans)
+  \cup (IF P.sw < 0 \/ P.tw = P.sw THEN {} ELSE {"textwidth-differs-from-span-width"})
+  \cup (IF P.sw < 0 \/ P.err \/ P.xoff0 # 0 \/ P.ret = P.sw THEN {} ELSE {"topath-advance-differs-from-span-width"})
   \cup (IF P.err \/ P.xoff0 # 0 \/ P.ret = Pre(xa, n) THEN {} ELSE {"topath-advance-differs"})
 =============================================================================
